@@ -13,9 +13,14 @@ or write of `cullCount`, one `CacheSet.caches` access while the class has no ent
 statement.  A step of a thread = the access it is parked at plus the thread-local code up to its next
 shared access (this is how the harness' deterministic scheduler runs the real code).
 
-Not modelled (see META['modelled'] of harness/c09.py): death of weakly referenced objects (every
-object that enters the cache stays referenced), `doCache = False`, preemption inside a C-level dict
-operation, OS scheduling/fairness.
+Weak references: CPython frees an instance the moment its last strong reference goes (instances are
+not part of reference cycles: `sqlmeta.instance` and `SQLObjectState.soObject` are weak proxies), so an
+`expiredCache` entry is dead exactly when its object is referenced neither by `cache`, nor by a thread
+(`refs`: every instance a thread has obtained; threads keep what they got), nor by the environment
+(`pins`).  `alive` computes that; the dead-weakref branches of `get` and `cull` follow it.
+
+Not modelled (see META['modelled'] of harness/c09.py): `doCache = False`, preemption inside a C-level dict
+operation, a cyclic-GC / non-refcounting interpreter, OS scheduling/fairness.
 -/
 namespace SqlObjVerif.Conc
 
@@ -41,6 +46,7 @@ def adel : AMap → Id → AMap
   | (k, v) :: m, i => if k = i then adel m i else (k, v) :: adel m i
 
 def akeys (m : AMap) : List Id := m.map Prod.fst
+def avals (m : AMap) : List Obj := m.map Prod.snd
 
 /-- `keys[off], keys[off+frac], …` (`range(off, len(keys), frac)`); `frac = 0` is outside the model
     (Python raises ValueError; the configuration constant is 2) and yields nothing -/
@@ -89,7 +95,7 @@ inductive Pc where
   | ccTest (k : K) | ccRead (k : K) | ccWrite (k : K) (v : Nat) | ccReset (k : K)
   -- CacheFactory.get + SQLObject.get
   | probe (i : Id) | acq (i : Id) | relook (i : Id) | relRel (i : Id) (o : Obj)
-  | weakGet (i : Id) | weakDel (i : Id) (o : Obj) | strongSet (i : Id) (o : Obj) | relSet (i : Id) (o : Obj)
+  | weakGet (i : Id) | weakDel (i : Id) (o : Obj) | weakDelDead (i : Id) (o : Obj) | strongSet (i : Id) (o : Obj) | relSet (i : Id) (o : Obj)
   | select (i : Id) | put (i : Id) (o : Obj) | finRel (i : Id) (o : Obj) | finRelNF (i : Id)
   -- create
   | insert (i : Id) | crSet (i : Id) (o : Obj) | crSelect (i : Id) (o : Obj)
@@ -99,7 +105,8 @@ inductive Pc where
   -- expireAll
   | eaAcq | eaNext (pos used : Nat) | eaSetWeak (k : Id) (v : Obj) (pos used : Nat) | eaSwap | eaRel | eaRelErr
   -- cull (embedded in get/created, or called directly)
-  | cuEntry | cuAcq (k : K) | cuWeakKeys (k : K) | cuWeakChk (k : K) (ks : List Id) | cuStrongKeys (k : K)
+  | cuEntry | cuAcq (k : K) | cuWeakKeys (k : K) | cuWeakChk (k : K) (ks : List Id)
+  | cuWeakPop (k : K) (key : Id) (o : Obj) (rest : List Id) | cuStrongKeys (k : K)
   | cuStrongGet (k : K) (i : Id) (rest : List Id) | cuStrongDel (k : K) (i : Id) (o : Obj) (rest : List Id)
   | cuWeakSet (k : K) (i : Id) (o : Obj) (rest : List Id) | cuRel (k : K) | cuRelErr
 deriving DecidableEq, Repr
@@ -123,7 +130,15 @@ structure State where
   fresh : Nat             -- next object identity
   stale : List Obj        -- ghost: objects removed from the cache by `expire`
   transit : Option (Id × Obj)  -- ghost: entry being moved between the maps by the lock holder
+  refs : List Obj         -- instances some thread has obtained (and keeps)
+  pins : List Obj         -- instances the environment keeps a reference to
   th : Tid → Th
+
+/-- the object still has a strong reference (so a weak reference to it is not dead) -/
+def aliveIn (refs pins : List Obj) (strong : AMap) (o : Obj) : Bool :=
+  refs.contains o || pins.contains o || (avals strong).contains o
+
+def alive (s : State) (o : Obj) : Bool := aliveIn s.refs s.pins s.strong o
 
 def setTh (f : Tid → Th) (t : Tid) (v : Th) : Tid → Th := fun u => if u = t then v else f u
 
@@ -193,7 +208,7 @@ def step (s : State) (t : Tid) : Option State :=
   -- get
   | .probe i =>
     match aget s.strong i with
-    | some o => some (finish s t (.obj i o))
+    | some o => some (finish { s with refs := s.refs ++ [o] } t (.obj i o))
     | none => some (goto s t (.acq i))
   | .acq i =>
     match s.lock with
@@ -201,21 +216,27 @@ def step (s : State) (t : Tid) : Option State :=
     | some _ => none
   | .relook i =>
     match aget s.strong i with
-    | some o => some (goto s t (.relRel i o))
+    | some o => some (goto { s with refs := s.refs ++ [o] } t (.relRel i o))
     | none => some (goto s t (.weakGet i))
   | .relRel i o => some (releaseFinish s t (.obj i o))
   | .weakGet i =>
     match aget s.weak i with
-    | some o => some (goto s t (.weakDel i o))
+    | some o =>
+      if alive s o then some (goto { s with refs := s.refs ++ [o] } t (.weakDel i o))
+      else some (goto s t (.weakDelDead i o))      -- dead weak reference: `val is None`
     | none => some (goto s t (.select i))
   | .weakDel i o =>
     match aget s.weak i with
     | some _ => some (goto { s with weak := adel s.weak i, transit := some (i, o) } t (.strongSet i o))
     | none => some (finish s t (.exc .keyError))
+  | .weakDelDead i _ =>
+    match aget s.weak i with
+    | some _ => some (goto { s with weak := adel s.weak i } t (.select i))
+    | none => some (finish s t (.exc .keyError))
   | .strongSet i o => some (goto { s with strong := aset s.strong i o, transit := none } t (.relSet i o))
   | .relSet i o => some (releaseFinish s t (.obj i o))
   | .select i =>
-    if i ∈ s.db then some (goto { s with fresh := s.fresh + 1 } t (.put i s.fresh))
+    if i ∈ s.db then some (goto { s with fresh := s.fresh + 1, refs := s.refs ++ [s.fresh] } t (.put i s.fresh))
     else some (goto s t (.finRelNF i))
   | .put i o => some (goto { s with strong := aset s.strong i o } t (.finRel i o))
   | .finRel i o => some (releaseFinish s t (.obj i o))
@@ -224,7 +245,7 @@ def step (s : State) (t : Tid) : Option State :=
   | .insert i =>
     if i ∈ s.db then some (finish s t (.exc .integrity))
     else
-      let s' := { s with db := s.db ++ [i], fresh := s.fresh + 1 }
+      let s' := { s with db := s.db ++ [i], fresh := s.fresh + 1, refs := s.refs ++ [s.fresh] }
       if s.caches then some (goto s' t (.ccTest (.create i s.fresh)))
       else some (goto s' t (.csGet (.create i s.fresh)))
   | .crSet i o => some (goto { s with strong := aset s.strong i o } t (.crSelect i o))
@@ -278,8 +299,11 @@ def step (s : State) (t : Tid) : Option State :=
     | [] => some (goto s t (.cuStrongKeys k))
     | key :: rest =>
       match aget s.weak key with
-      | some _ => some (goto s t (cuWeakNext k rest))
+      | some o =>
+        if alive s o then some (goto s t (cuWeakNext k rest))
+        else some (goto s t (.cuWeakPop k key o rest))   -- dead: `self.expiredCache.pop(key, None)`
       | none => some (goto s t .cuRelErr)
+  | .cuWeakPop k key _ rest => some (goto { s with weak := adel s.weak key } t (cuWeakNext k rest))
   | .cuStrongKeys k => some (goto s t (cuStrongNext k (strideKeys s.off s.frac (akeys s.strong))))
   | .cuStrongGet k i rest =>
     match aget s.strong i with
@@ -287,7 +311,11 @@ def step (s : State) (t : Tid) : Option State :=
     | none => some (goto s t .cuRelErr)
   | .cuStrongDel k i o rest =>
     match aget s.strong i with
-    | some _ => some (goto { s with strong := adel s.strong i, transit := some (i, o) } t (.cuWeakSet k i o rest))
+    | some _ =>
+      -- "the object may have been gc'd when removed from the cache above"
+      if aliveIn s.refs s.pins (adel s.strong i) o then
+        some (goto { s with strong := adel s.strong i, transit := some (i, o) } t (.cuWeakSet k i o rest))
+      else some (goto { s with strong := adel s.strong i } t (cuStrongNext k rest))
     | none => some (goto s t .cuRelErr)
   | .cuWeakSet k i o rest =>
     some (goto { s with weak := aset s.weak i o, transit := none } t (cuStrongNext k rest))
@@ -309,11 +337,11 @@ def startTh (c : Bool) : List Op → Th
   | [] => { pc := .idle, prog := [], outs := [] }
   | op :: rest => { pc := entry c op, prog := rest, outs := [] }
 
-/-- initial state: `strong`/`weak` hold objects `0 … fresh-1` (referenced by the environment) -/
+/-- initial state: `strong`/`weak` hold objects `0 … fresh-1`; the environment references `pins` -/
 def mkInit (caches : Bool) (strong weak : AMap) (db : List Id) (fresh freq frac cc off : Nat)
-    (progs : Tid → List Op) : State :=
+    (pins : List Obj) (progs : Tid → List Op) : State :=
   { caches := caches, strong := strong, weak := weak, lock := none, cc := cc, off := off, freq := freq,
-    frac := frac, db := db, fresh := fresh, stale := [], transit := none,
+    frac := frac, db := db, fresh := fresh, stale := [], transit := none, refs := [], pins := pins,
     th := fun t => startTh caches (progs t) }
 
 def finished (s : State) (t : Tid) : Bool := (s.th t).pc = .idle
